@@ -45,6 +45,9 @@ CallSites(a, m)    == {n \in 1..N(a) : IsLayer(a, n) /\ Owner(a, n) = m}
 (* ----------------------------- static shapes --------------------------- *)
 \* Sp = length (1-D) / height (2-D); SpW = width (2-D; 1 for 1-D nets).  "catt" concatenates over the
 \* time axis (1-D) or the height axis (2-D), so 2-D tensors may be rectangular.
+\* an un-padded ("valid") convolution shrinks its output by d*(k-1); otherwise convolutions are padded so
+\* that only the stride changes the size (causal left padding in 1-D, "same"-style padding elsewhere)
+IsValidConv(nd) == "valid" \in DOMAIN nd /\ nd.valid
 RECURSIVE Ch(_, _), Sp(_, _), SpW(_, _), SumCh(_, _, _), SumSp(_, _, _)
 Ch(a, n) ==
     IF n = 0 THEN a.c0
@@ -57,7 +60,8 @@ Ch(a, n) ==
 Sp(a, n) ==
     IF n = 0 THEN a.sp
     ELSE LET nd == Nd(a, n) IN
-         CASE nd.op = "conv" -> ((Sp(a, nd.ins[1]) - 1) \div nd.s) + 1
+         CASE nd.op = "conv" -> IF IsValidConv(nd) THEN ((Sp(a, nd.ins[1]) - nd.d * (nd.k - 1) - 1) \div nd.s) + 1
+                                ELSE ((Sp(a, nd.ins[1]) - 1) \div nd.s) + 1
            [] nd.op = "lin"  -> 1
            [] nd.op = "flat" -> 1
            [] nd.op = "gsq"  -> 1
@@ -68,7 +72,8 @@ SpW(a, n) ==
     IF a.dim = 1 THEN 1
     ELSE IF n = 0 THEN a.sp
     ELSE LET nd == Nd(a, n) IN
-         CASE nd.op = "conv" -> ((SpW(a, nd.ins[1]) - 1) \div nd.s) + 1
+         CASE nd.op = "conv" -> IF IsValidConv(nd) THEN ((SpW(a, nd.ins[1]) - nd.d * (nd.k - 1) - 1) \div nd.s) + 1
+                                ELSE ((SpW(a, nd.ins[1]) - 1) \div nd.s) + 1
            [] nd.op \in {"lin", "flat", "gsq"} -> 1
            [] nd.op = "pool" -> SpW(a, nd.ins[1]) \div 2
            [] OTHER          -> SpW(a, nd.ins[1])
